@@ -27,6 +27,16 @@ class DecoratedError(Exception):
         self.kwargs = kwargs
 
 
+@wamp.error("com.myapp.error.dual.new")
+@wamp.error("com.myapp.error.dual.legacy")
+class DualError(Exception):
+    """decorated with two URIs: sender and receiver must agree on which one is used"""
+
+    def __init__(self, *args, **kwargs):
+        Exception.__init__(self, *args)
+        self.kwargs = kwargs
+
+
 class DefinedError(Exception):
     def __init__(self, *args, **kwargs):
         Exception.__init__(self, *args)
@@ -106,23 +116,26 @@ def one(kind, reg, tb, sername, shape, uri_app):
     callee, ct = joined()
     caller, rt = joined()
     callee.traceback_app = tb
-    uris = {"decorated": "com.myapp.error.decorated", "defined": "com.myapp.error.defined", "definedsub": "com.myapp.error.definedsub"}
+    uris = {"decorated": "com.myapp.error.decorated", "defined": "com.myapp.error.defined", "definedsub": "com.myapp.error.definedsub",
+            "decorated2": "com.myapp.error.dual.legacy"}          # (the decorator nearest to the class is applied first)
     callee.define(DecoratedError)
+    callee.define(DualError)
     callee.define(DefinedError, "com.myapp.error.defined")
     callee.define(DefinedSubError, "com.myapp.error.definedsub")      # after its base class
     if kind == "appsub":
         callee.define(AppSubError, "com.myapp.error.appsub")
     cls = {"app": None, "decorated": DecoratedError, "defined": DefinedError, "undefined": UndefinedError,
-           "definedsub": DefinedSubError, "undefsub": UndefSubError, "appsub": AppSubError, "appsubundef": AppSubError}[kind]
+           "definedsub": DefinedSubError, "undefsub": UndefSubError, "appsub": AppSubError, "appsubundef": AppSubError,
+           "decorated2": DualError}[kind]
     carried = kind in ("app", "appsub", "appsubundef")
     if kind in ("appsub", "appsubundef"):
         uri_app = "com.myapp.error.appsub.detail"
     expected_uri = uri_app if carried else uris.get(kind, "wamp.error.runtime_error")
     regcls = None
     if reg == "same":
-        regcls = {"decorated": DecoratedError, "defined": DefinedError, "definedsub": DefinedSubError}[kind]
-        if kind == "decorated":
-            caller.define(DecoratedError)
+        regcls = {"decorated": DecoratedError, "defined": DefinedError, "definedsub": DefinedSubError, "decorated2": DualError}[kind]
+        if kind in ("decorated", "decorated2"):
+            caller.define(regcls)
         else:
             caller.define(regcls, expected_uri)
     elif reg == "badctor":
@@ -193,7 +206,7 @@ def main():
     inp = driver_in()
     rng = random.Random(int(os.environ.get("VERIF_SEED", "0")) * 31 + 7)
     traces = []
-    for kind in ("app", "decorated", "defined", "undefined", "definedsub", "undefsub", "appsub", "appsubundef"):
+    for kind in ("app", "decorated", "decorated2", "defined", "undefined", "definedsub", "undefsub", "appsub", "appsubundef"):
         for reg in ("same", "badctor", "none"):
             if reg == "same" and kind in ("app", "undefined", "undefsub", "appsub", "appsubundef"):
                 continue      # no class of this driver is registered for an arbitrary / the runtime-error URI
